@@ -178,7 +178,10 @@ def _run_jobs(jobs: list[dict]) -> list[list[dict]]:
 # --------------------------------------------------------------------------
 # (b) other hash seeds, fresh interpreters
 
-def other_seeds(jobs: list[dict], box: dict, seeds: tuple = (1, 2)) -> None:
+def other_seeds(jobs: list[dict], box: dict, seeds: tuple = (0, 1, 2)) -> None:
+    """the sample of jobs in fresh interpreters, one per hash seed (the
+    check's own interpreter is not one of them: its hash seed is whatever it
+    was started with)"""
     try:
         sample = [j for j in jobs if j.get("hs")]
         d = scratch()
@@ -218,8 +221,11 @@ def main(tier: str, only: list[dict] | None = None) -> int:
     box: dict[str, Any] = {}
     threads: list[threading.Thread] = []
     if only is None:
-        threads.append(threading.Thread(target=model_check, args=(tier, box)))
-        threads[-1].start()
+        # (X02_SKIP_MC: mutation experiments only -- the model-checked part does not
+        # look at pytato)
+        if not os.environ.get("X02_SKIP_MC"):
+            threads.append(threading.Thread(target=model_check, args=(tier, box)))
+            threads[-1].start()
         jobs = jobs_for(tier)
         threads.append(threading.Thread(target=other_seeds, args=(jobs, box)))
         threads[-1].start()
@@ -250,7 +256,7 @@ def main(tier: str, only: list[dict] | None = None) -> int:
                           f"{r['id']}: {pr['clause']}: {pr['what']}", record=r["job"],
                           observed=pr["what"],
                           sig={"clause": pr["clause"], "family": r["family"].split(":")[0],
-                               "exc": pr.get("exc", ""), "case": r["id"]})
+                               "exc": pr.get("exc", ""), "id": r["id"]})
         for rec in r["records"]:
             records.append(rec)
             owner[rec["id"]] = r
@@ -287,38 +293,46 @@ def main(tier: str, only: list[dict] | None = None) -> int:
             run.violation(rec["id"], f"{rec['id']}: {what}: clause '{v}': {detail}",
                           record=r["job"], observed=detail,
                           sig={"clause": v, "family": r["family"].split(":")[0],
-                               "kind": rec["kind"], "case": rec["id"].split("#")[0]})
+                               "kind": rec["kind"], "id": rec["id"].split("#")[0]})
     for t in threads:
         t.join()
     if "error" in box:
         raise box["error"]
     if "hs_error" in box:
         raise box["hs_error"]
-    hs_stats = {"cases": 0, "text_differs": 0, "picture_differs": 0}
+    hs_stats = {"cases": 0, "text_differs": 0, "picture_differs": 0,
+                "repr_text_differs_allowed": 0}
     if "hs" in box:
+        ref = box["hs"][0]
+        job_of = {r["id"]: r["job"] for r in results}
         for s, other in box["hs"].items():
+            if s == 0:
+                continue
             for cid, h in other.items():
-                mine = hashes.get(cid)
+                mine = ref.get(cid)
                 if mine is None:
                     continue
                 hs_stats["cases"] += 1
-                job = owner[cid]["job"] if cid in owner else None
+                job = job_of.get(cid)
                 if h["picture"] != mine["picture"]:
                     hs_stats["picture_differs"] += 1
                     run.violation(f"{cid}/hashseed_picture",
                                   f"{cid}: under PYTHONHASHSEED={s} the rendering is another "
-                                  f"PICTURE (not isomorphic) than under PYTHONHASHSEED="
-                                  f"{os.environ.get('PYTHONHASHSEED')}", record=job,
-                                  sig={"clause": "hashseed_picture", "case": cid,
+                                  f"PICTURE (not isomorphic) than under PYTHONHASHSEED=0",
+                                  record=job,
+                                  sig={"clause": "hashseed_picture", "id": cid,
                                        "family": cid.split("/")[0]})
+                elif h["text"] != mine["text"] and mine.get("repr"):
+                    # sets are printed in iteration order, as CPython prints its own
+                    # sets: allowed ("closely resembles CPython's repr")
+                    hs_stats["repr_text_differs_allowed"] += 1
                 elif h["text"] != mine["text"]:
                     hs_stats["text_differs"] += 1
                     run.violation(f"{cid}/hashseed_text",
                                   f"{cid}: under PYTHONHASHSEED={s} the text (addresses "
-                                  f"masked) differs from the text under PYTHONHASHSEED="
-                                  f"{os.environ.get('PYTHONHASHSEED')}; the picture is the same",
-                                  record=job,
-                                  sig={"clause": "hashseed_text", "case": cid,
+                                  f"masked) differs from the text under PYTHONHASHSEED=0; "
+                                  f"the picture is the same", record=job,
+                                  sig={"clause": "hashseed_text", "id": cid,
                                        "family": cid.split("/")[0]})
     mc_states, mc_trans, nneg = box.get("mc", (0, 0, 0))
     nontrivial = sum(1 for rec in records if rec["kind"] == "dot" and len(rec["src"]["nodes"]) >= 3)
